@@ -1,6 +1,7 @@
 package an
 
 import (
+	"sort"
 	"fmt"
 	"go/token"
 	"go/types"
@@ -101,6 +102,24 @@ func (a *Analysis) classifyErr(v ssa.Value) errClass {
 		return errClass{Kind: "call", Call: x, Desc: "result of " + calleeName(x)}
 	case *ssa.Extract:
 		if c, ok := x.Tuple.(*ssa.Call); ok {
+			// the error result of a module helper whose every return gives nil or one sentinel
+			if f := c.Call.StaticCallee(); f != nil && f.Pkg != nil && a.P.InModule(f.Pkg) && len(f.Blocks) > 0 && x.Index == f.Signature.Results().Len()-1 && !a.touchesPackageStateExceptLoads(f) {
+				var g *ssa.Global
+				same := true
+				for _, ret := range returnsOf(f) {
+					cl := a.classifyErr(returnedValue(ret, x.Index))
+					switch {
+					case cl.Kind == "nil":
+					case (cl.Kind == "sentinel" || cl.Kind == "wrap") && (g == nil || g == cl.G):
+						g = cl.G
+					default:
+						same = false
+					}
+				}
+				if same && g != nil {
+					return errClass{Kind: "wrap", G: g, Call: c, Desc: fmt.Sprintf("the error of %s(…), which is nil or %s", fnKey(f), g.Name())}
+				}
+			}
 			return errClass{Kind: "call", Call: c, Desc: "result of " + calleeName(c)}
 		}
 	case *ssa.Phi:
@@ -274,32 +293,48 @@ func (a *Analysis) ruleGates() {
 	}
 	// G3: len(tokens) in CheckMnemonic
 	if a.CM != nil {
+		// the tokeniser call: in CheckMnemonic itself or in a module function it (transitively)
+		// calls (`s, err := splitSentence(m)`); the count gate is analysed in the function that
+		// makes the call
 		var tok *ssa.Call
 		n := 0
-		for _, c := range callsIn(a.CM) {
-			switch calleeName(c) {
-			case "strings.Split", "strings.Fields":
-				if cc, ok := c.(*ssa.Call); ok {
-					tok = cc
-					n++
+		fns := []*ssa.Function{a.CM}
+		for f := range a.reachableFrom(a.CM) {
+			if f != a.CM {
+				fns = append(fns, f)
+			}
+		}
+		sort.Slice(fns[1:], func(i, j int) bool { return fnKey(fns[1+i]) < fnKey(fns[1+j]) })
+		for _, f := range fns {
+			for _, c := range callsIn(f) {
+				switch calleeName(c) {
+				case "strings.Split", "strings.Fields":
+					if cc, ok := c.(*ssa.Call); ok {
+						tok = cc
+						n++
+					}
 				}
 			}
 		}
 		if tok == nil || n != 1 {
-			a.R.Unk("G3", "CheckMnemonic/subject", a.P.Pos(a.CM.Pos()), "", "expected exactly one tokeniser call (strings.Split or strings.Fields) in CheckMnemonic, found %d", n)
+			a.R.Unk("G3", "CheckMnemonic/subject", a.P.Pos(a.CM.Pos()), "", "expected exactly one tokeniser call (strings.Split or strings.Fields) in CheckMnemonic or the module functions it calls, found %d", n)
 		} else {
+			tokFn := tok.Parent()
 			subj := map[ssa.Value]bool{}
-			for _, c := range callsIn(a.CM) {
+			for _, c := range callsIn(tokFn) {
 				if calleeName(c) == "len" && c.Common().Args[0] == ssa.Value(tok) {
 					subj[c.Value()] = true
 				}
 			}
-			gateFn, defBlock := a.CM, tok.Block()
+			gateFn, defBlock := tokFn, tok.Block()
+			if tokFn != a.CM {
+				a.R.OK("G3", "CheckMnemonic/gate-function", a.P.Pos(tokFn.Pos()), "", "the input is split in %s: the count gate is analysed there, and CheckMnemonic may go on only where that call returned a nil error (S2a gate-before-lookup)", fnKey(tokFn))
+			}
 			if len(subj) == 0 {
 				// the tokens are handed to a module function whose result is what CheckMnemonic
 				// returns (`return checkWords(strings.Split(m, " "), lg.mapping())`): the gate is
 				// looked for there, on len of the parameter that receives the tokens
-				if g, param := a.tailCallee(a.CM, tok); g != nil {
+				if g, param := a.tailCallee(tokFn, tok); g != nil {
 					for _, c := range callsIn(g) {
 						if calleeName(c) == "len" && c.Common().Args[0] == ssa.Value(param) {
 							subj[c.Value()] = true
